@@ -382,7 +382,26 @@ def check_mirror(ctx, rep, rule='M-mirror'):
         rep.ob(rule, 'delegate:%s' % m, callees == [T + target],
                'SplaySet::%s must delegate to SplayTree::%s, calls %s' % (m, target, [short(c) for c in callees]), loc=b.loc(b.j['line_lo']),
                reason='table-row')
-    rep.floor(rule, 'SplaySet delegations', n, 10)
+    # further like-named delegations: iterator adaptors of the set, min/max of the tree
+    SI_ = '<splay::set::IntoIter<T> as std::iter::'
+    TI_ = '<splay::tree::IntoIter<K, V> as std::iter::'
+    more = [(SI_ + 'Iterator>::next', TI_ + 'Iterator>::next'),
+            (SI_ + 'DoubleEndedIterator>::next_back', TI_ + 'DoubleEndedIterator>::next_back'),
+            (SI_ + 'Iterator>::size_hint', TI_ + 'Iterator>::size_hint'),
+            ('<splay::set::SplaySet<T, C> as std::iter::IntoIterator>::into_iter', '<splay::tree::SplayTree<K, V, C> as std::iter::IntoIterator>::into_iter'),
+            (T + 'min', T + 'min_node'), (T + 'max', T + 'max_node')]
+    for name, target in more:
+        b = f.bodies.get(name)
+        if b is None:
+            rep.ob(rule, 'delegate:%s' % short(name), False, '%s not found' % name, reason='anchor-missing')
+            continue
+        rep.analysed.add(name)
+        callees = [callee_name(t) for _, t in b.calls() if 'splay::tree::' in callee_name(t)]
+        n += 1
+        rep.ob(rule, 'delegate:%s' % short(name), callees == [target],
+               '%s must delegate to %s, calls %s' % (short(name), short(target), [short(c) for c in callees]), loc=b.loc(b.j['line_lo']),
+               reason='table-row')
+    rep.floor(rule, 'SplaySet delegations', n, 16)
 
 
 def first_diff(a, b):
@@ -390,3 +409,148 @@ def first_diff(a, b):
         if x != y:
             return '%s  VS  %s' % (x[:140], y[:140])
     return 'length %d vs %d' % (len(a), len(b))
+
+
+# ----------------------------------------------------------------------------------- M-lookup
+
+def equal_truth(p):
+    """(truth of "comparator(query, &root.key) == Equal" on the path, the comparator call value) or (None, None)"""
+    for (v, c) in p.conds:
+        x = strip_upd(v)
+        if x[0] == 'op' and x[1] in ('eq', 'ne') and len(x) == 4:
+            a, b2 = strip_upd(x[2]), strip_upd(x[3])
+            for call, other in ((a, b2), (b2, a)):
+                if call[0] in ('call', 'pcall') and call[1].endswith('Fn::call') and other[0] == 'agg' and other[2] in ('Equal', 'Less', 'Greater'):
+                    if other[2] != 'Equal':
+                        return 'other:%s' % other[2], call
+                    t = c[1] if x[1] == 'eq' else (not c[1])
+                    return t, call
+        if x[0] == 'discr':
+            y = strip_upd(x[1])
+            if y[0] in ('call', 'pcall') and y[1].endswith('Fn::call'):
+                if c[0] == 'eq':
+                    return c[1] == EQUAL, y
+                if c[0] == 'notin':
+                    return (EQUAL not in c[1]) and None, y
+    return None, None
+
+
+def _is_root_payload(v):
+    """&*box((*UnsafeCell::get(&self.root) as Some).0) or the Some payload slot itself"""
+    s = show(noepoch(strip_upd(v)))
+    return 'UnsafeCell::get(&*self.root)' in s and ('Some' in s)
+
+
+def check_lookup(ctx, rep, rule='M-lookup'):
+    """get / get_mut / find_key / contains / remove decide membership by `comparator(key, &root.key) == Equal` *after*
+    splaying for the same key; splay() stops only on Equal or when the child in the direction of the comparison is missing"""
+    n = 0
+    for m, field in (('get', 'value'), ('get_mut', 'value'), ('find_key', 'key'), ('remove', 'value')):
+        b, ps = rep.explore(ctx, T + m, rule)
+        if b is None:
+            continue
+        seen = set()
+        for p in ps:
+            if p.end != 'return':
+                continue
+            splays = [e for e in p.calls() if e['callee'].endswith('tree::splay')]
+            root_none = any(strip_upd(v)[0] == 'discr' and 'self.root' in show(noepoch(v)) and c == ('eq', 0) for (v, c) in p.conds)
+            k = ret_kind(p)
+            if not splays:
+                ok = root_none and k == 'None'
+                key = ('empty', ok)
+                if key in seen:
+                    continue
+                seen.add(key)
+                n += 1
+                rep.ob(rule, '%s:empty-tree' % m, ok, '%s() without a splay must be the empty-tree path and return None (root None: %s, returns %s)'
+                       % (m, root_none, k), loc=b.loc(b.j['line_lo']), reason='table-row')
+                continue
+            eqt, call = equal_truth(p)
+            first = splays[0]
+            a0 = strip_upd(first['args'][0])
+            args_ok = a0[0] == 'param' and a0[2] == 'key' and _is_root_payload(first['args'][1])
+            cmp_ok = False
+            if call is not None:
+                tup = strip_upd(call[2][1])
+                if tup[0] == 'agg' and len(tup[4]) == 2:
+                    q, nk = strip_upd(tup[4][0]), strip_upd(tup[4][1])
+                    cmp_ok = q[0] == 'param' and q[2] == 'key' and _is_root_payload(nk) and show(noepoch(nk)).endswith('.key')
+                # the membership comparison must come after the splay
+                ci = [i for i, e in enumerate(p.events) if e['k'] == 'call' and e['callee'].endswith('Fn::call')]
+                si = p.events.index(first)
+                cmp_ok = cmp_ok and bool(ci) and min(ci) > si
+            if eqt is True:
+                want = 'Some'
+                r = strip_upd(p.ret)
+                payload = show(noepoch(strip_upd(r[4][0]))) if r[0] == 'agg' and r[4] else ''
+                ret_ok = k == 'Some' and payload.endswith('.' + field) and 'self.root' in payload
+            elif eqt is False:
+                want = 'None'
+                ret_ok = k == 'None'
+            else:
+                want = '?'
+                ret_ok = False
+            ok = args_ok and cmp_ok and ret_ok
+            key = (eqt, ok)
+            if key in seen:
+                continue
+            seen.add(key)
+            n += 1
+            rep.ob(rule, '%s:equal=%s' % (m, eqt), ok,
+                   '%s() must splay for `key` at the root, then compare comparator(key, &root.key) with Equal, and return %s(root.%s) exactly '
+                   'when it is Equal; this path: splay args ok=%s, comparison ok=%s, Equal=%s, returns %s %s'
+                   % (m, 'Some', field, args_ok, cmp_ok, eqt, k, show(noepoch(p.ret))[:60]), loc=b.loc(b.j['line_lo']), reason='table-row')
+    # contains = find_key(key).is_some()
+    b, ps = rep.explore(ctx, T + 'contains', rule)
+    if b is not None:
+        ok = bool(ps)
+        for p in ps:
+            fk = [e for e in p.calls() if e['callee'].endswith('::find_key')]
+            r = strip_upd(p.ret) if p.ret is not None else ('?',)
+            good = len(fk) == 1 and [show(noepoch(a)) for a in fk[0]['args']] == ['self', 'key'] and r[0] in ('call', 'pcall') and r[1].endswith('Option::<T>::is_some')
+            ok = ok and good
+        n += 1
+        rep.ob(rule, 'contains:is-find_key-is_some', ok, 'contains(key) must be find_key(key).is_some()', loc=b.loc(b.j['line_lo']), reason='table-row')
+    # exits of splay()
+    b, ps = rep.explore(ctx, 'splay::tree::splay', rule)
+    if b is not None:
+        seen = set()
+        n_exit = 0
+        for p in ps:
+            if p.end != 'return':
+                continue
+            n_exit += 1
+            o, _ = cmp_branch(p, b)
+            last = strip_upd(p.conds[-1][0]) if p.conds else ('?',)
+            lc = p.conds[-1][1] if p.conds else None
+            why = None
+            if o == EQUAL:
+                ok = len([1 for (v, c) in p.conds if strip_upd(v)[0] == 'discr']) == 1
+                why = 'Equal'
+            elif o in (LESS, GREATER):
+                want = 'left' if o == LESS else 'right'
+                s = show(noepoch(last))
+                ok = last[0] == 'discr' and lc == ('eq', 0) and s.rstrip(')').endswith('.' + want)
+                why = 'missing-%s-child' % want
+                # every comparison on the path points the same way
+                for (v, c) in p.conds:
+                    x = strip_upd(v)
+                    if x[0] == 'op' and x[1] in ('eq', 'ne') and 'Fn::call' in show(noepoch(x)):
+                        y = strip_upd(x[3])
+                        named = y[2] if y[0] == 'agg' else None
+                        truth = c[1] if x[1] == 'eq' else (not c[1])
+                        ok = ok and named == ORD[o] and truth is True
+            else:
+                ok = False
+            key = (o, why, ok)
+            if key in seen:
+                continue
+            seen.add(key)
+            n += 1
+            rep.ob(rule, 'splay-exit:%s:%s' % (ORD.get(o), why), ok,
+                   'splay() may stop only when the comparison is Equal or the child in the direction of the comparison is missing; this exit has '
+                   'first comparison %s and last test %s %s' % (ORD.get(o), show(noepoch(last))[:80], lc), loc=b.loc(b.j['line_lo']), reason='table-row')
+        rep.floor(rule, 'splay exit paths', n_exit, 5)
+    rep.floor(rule, 'lookup rows', n, 16)
+    rep.rows_compared += n
